@@ -26,6 +26,7 @@ type Explorer struct {
 	MaxDepth    int
 	Capped      bool
 	DetChecked  int
+	Warmups     int // executions spent warming up state outside the closed system before the traces became stable
 	FirstChoice [][]int
 }
 
@@ -52,10 +53,20 @@ func (e *Explorer) run(prefix []int, root bool) {
 		Fatal("schedule replay diverged: %s (prefix %v)", x.Diverged, prefix)
 	}
 	if e.Schedules == 0 {
-		// determinism gate: the same prefix must give the same trace and log
-		y := e.Exec(prefix)
-		if !reflect.DeepEqual(x.Trace, y.Trace) || !reflect.DeepEqual(x.Log, y.Log) {
-			Fatal("nondeterministic execution under the scheduler: traces differ for prefix %v\n%v\n%v\n%v\n%v", prefix, x.Trace, y.Trace, x.Log, y.Log)
+		// determinism gate: the same prefix must give the same trace and log. State that lives outside the closed
+		// system and is built on first use (a package-level cache, a lazily initialised table) makes the first
+		// executions differ from the later ones: such state is warmed up (up to three more executions) and the
+		// exploration then runs from the steady state; executions that keep differing are an engine error.
+		for attempt := 0; ; attempt++ {
+			y := e.Exec(prefix)
+			if reflect.DeepEqual(x.Trace, y.Trace) && reflect.DeepEqual(x.Log, y.Log) {
+				break
+			}
+			if attempt >= 3 {
+				Fatal("nondeterministic execution under the scheduler: traces differ for prefix %v\n%v\n%v\n%v\n%v", prefix, x.Trace, y.Trace, x.Log, y.Log)
+			}
+			x = y
+			e.Warmups++
 		}
 		e.DetChecked++
 	}
